@@ -369,9 +369,10 @@ type connPlan struct {
 func (w *world) layout() []*connPlan {
 	run := w.run
 	r := run.Rand(1)
-	total := run.Pick(700, 12000)
+	total := run.Pick(3000, 40000)
 	bigReq := run.Pick(6, 200)
 	bigResp := run.Pick(4, 120)
+	bigRaw := run.Pick(2, 60)
 	var conns []*connPlan
 	id := 0
 	runID := fmt.Sprintf("C08-%d", run.Seed)
@@ -391,15 +392,15 @@ func (w *world) layout() []*connPlan {
 	}
 	for n := 0; id < total; n++ {
 		cp := &connPlan{id: n, preserve: n%2 == 1, stat: &connStat{}}
-		switch k := n % 6; {
-		case k == 0 || k == 3:
-			cp.proto = "h1"
-		case k == 1 || k == 4:
+		switch k := n % 8; {
+		case k == 1:
 			cp.proto = "h2cc"
-		default:
+		case k == 4:
 			cp.proto = "h2raw"
+		default:
+			cp.proto = "h1"
 		}
-		if n%12 >= 6 { // decorrelate protocol and host preservation
+		if n%16 >= 8 { // decorrelate protocol and host preservation
 			cp.preserve = !cp.preserve
 		}
 		switch cp.proto {
@@ -432,12 +433,17 @@ func (w *world) layout() []*connPlan {
 			}
 			for bi := 0; bi < nb; bi++ {
 				k := 5 + r.Intn(46)
-				if n < 6 && bi == 0 {
+				if n < 8 && bi == 0 {
 					k = 50
 				}
 				var xs []*exchange
 				for i := 0; i < k; i++ {
 					big, bigR := 0, 0
+					if cp.proto == "h2raw" && bigRaw > 0 && i == 5 {
+						// beyond the server's 1 MiB stream window: the sender has to wait for WINDOW_UPDATE
+						big = (1 << 20) + r.Intn(3<<19)
+						bigRaw--
+					}
 					if cp.proto == "h2cc" {
 						if bigReq > 0 && i == 3 {
 							big = (1 << 20) + r.Intn(7<<20)
@@ -544,8 +550,8 @@ func main() {
 	w.px[0].Stop()
 	w.px[1].Stop()
 
-	run.Require("requests_compared_at_backend", int64(run.Pick(600, 10000)))
-	run.Require("responses_compared_at_client", int64(run.Pick(600, 10000)))
+	run.Require("requests_compared_at_backend", int64(run.Pick(2500, 35000)))
+	run.Require("responses_compared_at_client", int64(run.Pick(2500, 35000)))
 	run.Require("exchanges_h1", 50)
 	run.Require("exchanges_h2cc", 50)
 	run.Require("exchanges_h2raw", 50)
